@@ -59,11 +59,28 @@ type replay struct {
 	Causal   bool     `json:"causal"`
 	Thorough bool     `json:"thorough_universe"`
 	Expr     string   `json:"tlc_expr,omitempty"`
+	Deep     json.RawMessage `json:"deep,omitempty"`
+	Cross    *crossCase      `json:"cross,omitempty"`
 }
 
 var selfA, selfB = tla.MakeNumber(1), tla.MakeString("n2")
 
+var clockCache [6]*tla.VClock
+
+// clockNo returns one of six different clocks (immutable values, shared).
 func clockNo(i int) tla.VClock {
+	i %= 6
+	if i < 0 {
+		i += 6
+	}
+	if clockCache[i] == nil {
+		c := mkClock(i)
+		clockCache[i] = &c
+	}
+	return *clockCache[i]
+}
+
+func mkClock(i int) tla.VClock {
 	var c tla.VClock
 	for k := 0; k <= i%3; k++ {
 		c = c.Inc("AServer", selfA)
@@ -120,7 +137,8 @@ type checker struct {
 
 var counters = []string{"instances", "construct", "reflexive", "variant_equal_hash", "gob_roundtrip", "gob_clock", "string_reparse",
 	"big_hashmap_lookup", "big_immutable_lookup", "pairs", "pairs_must_equal", "pairs_must_differ", "pairs_either", "hash_agree",
-	"member_agree", "apply_agree", "hashmap_agree", "immutable_agree", "transitivity_pairs", "vclock_gob", "tlc_string_eval", "tlc_refuses_mixed_kinds"}
+	"member_agree", "apply_agree", "hashmap_agree", "immutable_agree", "transitivity_pairs", "vclock_gob", "tlc_string_eval", "tlc_refuses_mixed_kinds",
+	"pairs_cross_representation", "cross_representation_checks", "cross_representation_disagreements"}
 
 func newChecker(causal, thorough bool) *checker {
 	c := &checker{causal: causal, thorough: thorough, viol: map[string]hres.Viol{}, n: map[string]*atomic.Int64{}}
@@ -139,6 +157,20 @@ func (c *checker) fail(key, what string, r replay) {
 	defer c.mu.Unlock()
 	if _, ok := c.viol[key]; !ok {
 		c.viol[key] = hres.Viol{Key: key, What: what, Replay: r}
+	}
+}
+
+// crossKey is the single key under which every consequence of one root cause is reported: a tuple and the
+// function with domain 1..n (the empty function for n = 0) are one TLA+ value but two disjoint Go representations.
+const crossKey = "equal/tuple-vs-function-over-1..n"
+
+func (c *checker) failCross(what string, r replay) {
+	c.n["cross_representation_disagreements"].Add(1)
+	r.Causal, r.Thorough = c.causal, c.thorough
+	c.mu.Lock()
+	defer c.mu.Unlock()
+	if _, ok := c.viol[crossKey]; !ok {
+		c.viol[crossKey] = hres.Viol{Key: crossKey, What: what, Replay: r}
 	}
 }
 
@@ -222,7 +254,9 @@ func (c *checker) checkInstance(in, canon0 *inst) {
 		}
 		var buf bytes.Buffer
 		msg := message{"m", x, canon0.val}
-		if err := gob.NewEncoder(&buf).Encode(&msg); err != nil {
+		if c.causal && in.v != 0 {
+			// (the message round trip of the non-canonical wrapped builds is skipped: gob with clocks is slow)
+		} else if err := gob.NewEncoder(&buf).Encode(&msg); err != nil {
 			c.fail("gob/error-in-message/"+k, fmt.Sprintf("%v inside a message: %v", in, err), r)
 		} else {
 			var back message
@@ -273,7 +307,7 @@ func applyOK(fn, arg tla.Value) (ok bool, other any) {
 }
 
 type pairCounts struct {
-	pairs, mustEqual, mustDiffer, either, hashAgree, member, apply, hashmap, immutable int64
+	pairs, mustEqual, mustDiffer, either, crossRep, hashAgree, member, apply, hashmap, immutable int64
 }
 
 func (c *checker) addPairCounts(pc *pairCounts) {
@@ -281,6 +315,7 @@ func (c *checker) addPairCounts(pc *pairCounts) {
 	c.n["pairs_must_equal"].Add(pc.mustEqual)
 	c.n["pairs_must_differ"].Add(pc.mustDiffer)
 	c.n["pairs_either"].Add(pc.either)
+	c.n["pairs_cross_representation"].Add(pc.crossRep)
 	c.n["hash_agree"].Add(pc.hashAgree)
 	c.n["member_agree"].Add(pc.member)
 	c.n["apply_agree"].Add(pc.apply)
@@ -312,7 +347,12 @@ func (c *checker) checkPair(a, b *inst, pb *perB, pc *pairCounts) bool {
 			c.fail("equal/conflates-distinct/"+kk(), fmt.Sprintf("%v is Equal to the different value %v", a, b), r())
 		}
 	default:
-		pc.either++ // <<0>> vs (1 :> 0): one TLA+ value, two Go representations; either answer is coherent
+		// <<0>> vs (1 :> 0), at any depth: one TLA+ value in two Go representations.  They must be Equal and hash
+		// equally like any other two builds of one value; all disagreements share one root cause and one key
+		pc.crossRep++
+		if !eq || a.hash != b.hash {
+			c.failCross(fmt.Sprintf("%v and %v are the same TLA+ value (a tuple is the function over 1..n) but Equal is %v and the hashes are %d / %d", a, b, eq, a.hash, b.hash), r())
+		}
 	}
 	if eq {
 		pc.hashAgree++
@@ -358,11 +398,13 @@ type halfStats struct {
 	HashValues    int              `json:"distinct_hashes_observed"`
 	CoreSize      int              `json:"core_size"`
 	Complete      bool             `json:"complete"`
+	PhaseSeconds  map[string]float64 `json:"phase_seconds"`
 	Samples       []string         `json:"samples"`
 }
 
 // runHalf runs every check without (causal=false) or with (causal=true) vector-clock wrapping.
 func runHalf(causal bool, env hres.Env) (*checker, *halfStats) {
+	tStart := time.Now()
 	c := newChecker(causal, env.Thorough())
 	u := buildUniverse(env.Thorough())
 	st := &halfStats{Shapes: len(u.shapes), StrictClasses: u.nStrict, NormClasses: u.nNorm, ByDepth: map[string]int{}, ByKind: map[string]int{}, Complete: true, CoreSize: u.coreSize}
@@ -434,6 +476,9 @@ func runHalf(causal bool, env hres.Env) (*checker, *halfStats) {
 	}
 	var wg sync.WaitGroup
 	next := new(atomic.Int64)
+	st.PhaseSeconds = map[string]float64{}
+	t0 := time.Now()
+	st.PhaseSeconds["build"] = time.Since(tStart).Seconds()
 	// phase A: per instance
 	for w := 0; w < workers; w++ {
 		wg.Add(1)
@@ -463,13 +508,15 @@ func runHalf(causal bool, env hres.Env) (*checker, *halfStats) {
 	}
 	wg.Wait()
 
+	st.PhaseSeconds["per_instance"] = time.Since(t0).Seconds()
+	t0 = time.Now()
 	// phase B: pairs.  thorough, plain half: ALL ordered pairs of instances.  otherwise: every instance against the canonical build
 	// (variant 0) and the alternative-children build (last variant) of every value, wrapped and unwrapped.
 	// Column j of the Equal matrix is owned by the worker that took j.
 	n := len(all)
 	var cols []int
 	for j, b := range all {
-		if (env.Thorough() && !causal) || b.v == 0 || b.v == variants(b.sh)-1 {
+		if (env.Thorough() && !causal) || b.v == 0 || (b.v == variants(b.sh)-1 && (!causal || env.Thorough())) {
 			cols = append(cols, j)
 		}
 	}
@@ -594,6 +641,15 @@ func runHalf(causal bool, env hres.Env) (*checker, *halfStats) {
 	}
 	st.HashValues = len(hs)
 
+	st.PhaseSeconds["pairs_and_transitivity"] = time.Since(t0).Seconds()
+	// tuple vs function over 1..n, sizes 0..3, every construction route
+	if causal {
+		k := 0
+		c.checkCrossRep(func(x tla.Value) tla.Value { k++; return tla.WrapCausal(x, clockNo(k)) })
+	} else {
+		c.checkCrossRep(nil)
+	}
+
 	// VClock alone
 	for i := 0; i < 12; i++ {
 		c.n["vclock_gob"].Add(1)
@@ -716,6 +772,13 @@ func replayOne(env hres.Env, r replay) *checker {
 		if err == nil && !(res[0].OK && res[0].Value == "TRUE") && res[0].ErrClass != "type" {
 			c.fail("string/tlc-denotes-other-value/"+kindName(a.sh), fmt.Sprintf("TLC: %s -> %s %s", r.Expr, res[0].Value, res[0].ErrMsg), r)
 		}
+	case "cross":
+		if r.Causal {
+			k := 0
+			c.checkCrossRep(func(x tla.Value) tla.Value { k++; return tla.WrapCausal(x, clockNo(k)) })
+		} else {
+			c.checkCrossRep(nil)
+		}
 	case "vclock":
 		runHalfVClockOnly(c)
 	}
@@ -819,12 +882,17 @@ func TestCheck(t *testing.T) {
 		childMain(t)
 		return
 	}
+	if os.Getenv("VERIF_CHILD") == "deep" {
+		deepChildMain()
+		return
+	}
 	hres.Main(t, func(env hres.Env) *hres.Result {
 		res := &hres.Result{Property: "C05", Level: "exploration"}
 		res.Assumptions = []string{
 			"strings are over printable ASCII (the property's restriction); TLA+ string literals cannot carry other bytes",
 			"reference identity of a value is a canonical text computed by the harness from its own shape tree (sort.Strings), never by Value.Equal/Hash",
-			"a tuple and a function over 1..n (or the empty function) denote one TLA+ value but are two Go representations: Equal may answer either way for such a pair, all laws (symmetry, transitivity, hash, lookups) must still hold",
+			"a tuple and a function over 1..n (or the empty function) denote one TLA+ value: they must be Equal, hash equally and be interchangeable in sets, function lookup and maps; every disagreement of this one kind is reported under the single key " + crossKey + " (values that contain both representations as two members/keys of one collection are excused from the representation-level demands)",
+			"deep chains: an operation on a chain of depth <= 200 (thorough 400) that has burnt 5 s (thorough 20 s) of CPU without returning is a hang; wall-clock slowness alone is never a verdict",
 			"String() is parsed by verif/mc/tlabridge (TLC value syntax + the :> / @@ expression form); in the thorough tier TLC itself evaluates printed = canonical for every value TLC can construct (it refuses sets of mixed kinds)",
 			"the causal half runs in a child process started with PGO_TRACE_DIR set, so WrapCausal really wraps (checked by the child)",
 		}
@@ -833,7 +901,15 @@ func TestCheck(t *testing.T) {
 			if err := json.Unmarshal(env.Replay, &r); err != nil {
 				t.Fatal(err)
 			}
-			if r.Causal {
+			if r.Check == "deep" {
+				var dr deepReplay
+				if err := json.Unmarshal(r.Deep, &dr); err != nil {
+					t.Fatal(err)
+				}
+				c := newChecker(false, env.Thorough())
+				runDeep(c, env.Tier, env.Workers, &dr)
+				res.Violations = sortedViol(c)
+			} else if r.Causal {
 				co, err := runChild(env, &r)
 				if err != nil {
 					t.Fatal(err)
@@ -846,6 +922,7 @@ func TestCheck(t *testing.T) {
 			return res
 		}
 		plain, pst := runHalf(false, env)
+		deepStats := runDeep(plain, env.Tier, env.Workers, nil)
 		res.Violations = append(res.Violations, sortedViol(plain)...)
 		co, err := runChild(env, nil)
 		if err != nil {
@@ -854,8 +931,18 @@ func TestCheck(t *testing.T) {
 		if !co.Live {
 			t.Fatalf("causal child: WrapCausal is not live although PGO_TRACE_DIR was set")
 		}
-		res.Violations = append(res.Violations, co.Violations...)
-		evals := pst.Counts["pairs"] + pst.Counts["instances"] + co.Stats.Counts["pairs"] + co.Stats.Counts["instances"]
+		have := map[string]bool{}
+		for _, v := range res.Violations {
+			have[v.Key] = true
+		}
+		for _, v := range co.Violations {
+			if !have[v.Key] { // crossKey is one key for both halves
+				res.Violations = append(res.Violations, v)
+			}
+		}
+		deepOpsDone, _ := deepStats["operations_completed"].(int)
+		evals := pst.Counts["pairs"] + pst.Counts["instances"] + co.Stats.Counts["pairs"] + co.Stats.Counts["instances"] +
+			pst.Counts["cross_representation_checks"] + co.Stats.Counts["cross_representation_checks"] + int64(deepOpsDone)
 		res.Coverage = map[string]any{
 			"evaluations":         evals,
 			"distinct_nontrivial": pst.StrictClasses,
@@ -864,7 +951,7 @@ func TestCheck(t *testing.T) {
 				"checked per instance: reflexivity, Equal+Hash against the canonical build, gob round trip alone and inside a message struct, String() re-parsed, lookup in a hashmap/immutable.Map holding every value; " +
 				"checked for pairs (thorough, unwrapped half: ALL ordered pairs of instances; otherwise: every instance x the canonical and the alternative-children build of every value, wrapped and unwrapped = pair_columns): symmetry, same value => Equal, different TLA+ value => not Equal, Equal => same Hash, and agreement of \\in, function application, hashmap.Get, immutable.Map.Get with Equal (for all pairs of canonical builds and all pairs that are Equal, expected Equal or hash-colliding); " +
 				"transitivity for all triples (instance, column, column) via the Equal matrix (Equal must be exactly the connected components of its own graph); the same again with every value and sub-value wrapped by WrapCausal (child process). " +
-				"evaluations = instances + ordered pairs (both halves); distinct_nontrivial = number of distinct values (distinct canonical texts) in the universe",
+				"plus the cross-representation family (tuple vs function over 1..n, n = 0..3, 4 element vectors, 7 construction routes incl. gob-decoded, 13 agreement checks each) and the deep chains (6 families x depths 12/64/200 x 10 operations, wrapped and unwrapped, in watched child processes). evaluations = instances + ordered pairs + cross-representation checks (both halves) + deep-chain operations; distinct_nontrivial = number of distinct values (distinct canonical texts) in the universe",
 			"samples":              pst.Samples,
 			"exhaustive":           pst.Complete && co.Stats.Complete,
 			"plain_half":           pst,
@@ -873,7 +960,8 @@ func TestCheck(t *testing.T) {
 			"depth_bound":          3,
 			"max_collection_size":  2,
 			"tlc_used":             env.Thorough(),
-			"divergences":          0,
+			"divergences":          deepStats["divergences"],
+			"deep_chains":          deepStats,
 			"not_covered":          "values deeper than 3 or collections larger than 2; strings longer than 3 characters; non-ASCII strings (outside the property)",
 		}
 		return res
